@@ -79,15 +79,25 @@ fn check_valid(tr: &TextRec, kw: usize, ws: usize, deep: bool) -> Result<String,
         }
     }
     if deep {
-        let base = {
+        let hosts: Vec<Vec<u8>> = {
             let mut m = base_msg(&nm("b.a"), T_A, true);
             m.an.push(a_rec(&nm("b.a"), 1, [1, 1, 1, 1]));
             m.ar.push(opt_variants()[1].clone());
-            encode(&m, Strategy::Max)
+            // no authority; additional records compressed against each other
+            let mut m2 = base_msg(&nm("b.a"), T_A, true);
+            m2.an.push(a_rec(&nm("b.a"), 1, [1, 1, 1, 1]));
+            m2.ar.push(a_rec(&nm("ns1.glue.net"), 1, [2, 2, 2, 2]));
+            m2.ar.push(name_rec(&nm("ns2.glue.net"), T_CNAME, 1, &nm("ns1.glue.net")));
+            // no answers, authority and additional both present
+            let mut m3 = base_msg(&nm("b.a"), T_A, true);
+            m3.ns.push(name_rec(&nm("a"), T_NS, 1, &nm("ns.other.org")));
+            m3.ar.push(a_rec(&nm("ns.other.org"), 1, [3, 3, 3, 3]));
+            vec![encode(&m, Strategy::Max), encode(&m2, Strategy::Max), encode(&m3, Strategy::Max)]
         };
+        for base in &hosts {
         for (sec, section) in [(Sec::Answer, Section::Answer), (Sec::Authority, Section::NameServers), (Sec::Additional, Section::Additional)] {
-            let mut pp = crate::subj::parse(&base).unwrap();
-            let before = decode(&base).unwrap().msg;
+            let mut pp = crate::subj::parse(base).unwrap();
+            let before = decode(base).unwrap().msg;
             let r = caught(|| pp.insert_rr_from_string(section, &text).map_err(|e| e.to_string()));
             let too_large = refmodel::msg::encode(&before, Strategy::Plain).len() + want.len() > 8192;
             match r {
@@ -113,6 +123,7 @@ fn check_valid(tr: &TextRec, kw: usize, ws: usize, deep: bool) -> Result<String,
                     }
                 }
             }
+        }
         }
     }
     Ok(format!("valid:{} ", tn))
